@@ -146,7 +146,7 @@ def run(tier):
         for q, r in zip(pts, res):
             m = (list(r.get("m") or []) + ["?"] * crashrun.NKEYS)[:crashrun.NKEYS]
             lines.append({"t": "cp", "idx": q.idx, "desc": q.desc, "ok": bool(r.get("ok")), "err": (r.get("err") or "")[:300], "m": m,
-                          "kind": "nested", "ref": refm})
+                          "kind": "nested", "ref": refm, "cont": (r.get("cont") or "")[:300]})
             n2 += 1
             nperm += 1 if q.perm else 0
             descs[crash.normalize_desc(q.desc).split(" removed=")[0]] += 1
